@@ -86,6 +86,8 @@ func C05(r *h.Run) {
 	r.Sum.Rule = "handler programs (set headers/trailers, send k messages, return nil or an error with one of the 16 codes) x 3 protocols x {unary, server-stream} x {identity, tag compression with thresholds}: the recorded raw response must be accepted by the strictly spec-following reader evaluated in Coq and yield the messages and status the application supplied; client programs likewise for the requests they write; conformant-peer vectors (lower-case hex escapes, padded base64, any per-message compression choice, trailer key case and order, trailers-only vs normal, end-of-stream key case) are validated by the same Coq reader and fed to real clients, which must decode the same values. distinct = distinct (program, cfg)"
 	rng := r.Rng.Fork("c05")
 	protos := []string{"connect", "grpc", "grpcweb"}
+	r.OracleFamily("handler_response", "a response written by a real handler is rejected by the strictly spec-following reader (SpecWire.v), or does not yield the messages/status the application supplied")
+	r.OracleFamily("client_request", "a request written by a real client is rejected by the strictly spec-following reader (SpecWire.v), or does not yield the messages the application supplied")
 
 	// ---- (a) responses written by real handlers ----
 	for i := 0; i < r.N(240, 2400); i++ {
